@@ -287,6 +287,14 @@ func (o *Obligation) QueryText() string {
 // ---------------- sorts ----------------
 
 func (fc *FnCtx) typeName(t types.Type) string {
+	if b, ok := t.(*types.Basic); ok {
+		switch b.Kind() {
+		case types.Uint8:
+			return "uint8" // byte
+		case types.Int32:
+			return "int32" // rune
+		}
+	}
 	return types.TypeString(t, func(p *types.Package) string { return p.Path() })
 }
 
